@@ -113,7 +113,23 @@ pub fn rand_shape(rng: &mut Rng, cfg: &RawCfg, slot: P) -> (Shape, &'static str)
         poly.iter().map(|p| (p.0 - minx, p.1 - miny)).collect()
     };
     loop {
-        match rng.below(6) {
+        match rng.below(7) {
+            6 if cfg.general_polygons => {
+                // four-vertex near-rectangles: a rectangle with one corner slid along one side (right trapezoid), from any start vertex, either direction
+                let (w, h) = (rng.range(2, 800), rng.range(2, 800));
+                let mut q = vec![(0, 0), (w, 0), (w, h), (0, h)];
+                let k = rng.usize(4);
+                if rng.bool() {
+                    q[k].0 = rng.range(1, w - 1);
+                } else {
+                    q[k].1 = rng.range(1, h - 1);
+                }
+                q.rotate_left(rng.usize(4));
+                if rng.bool() {
+                    q.reverse();
+                }
+                return (Shape::Polygon(Polygon { points: q.iter().map(|p| pt(sh(*p))).collect() }), "quad");
+            }
             0 | 1 => {
                 let (a, b) = ((rng.range(0, 400), rng.range(0, 400)), (rng.range(401, 800), rng.range(401, 800)));
                 // any pair of opposite corners
